@@ -149,6 +149,15 @@ Proof.
 Qed.
 
 (* ---------- BaseGun.Shoot ---------- *)
+Lemma side_branches_no_panic : forall o r, is_panic (side_branches o r) = false.
+Proof.
+  intros o r. unfold side_branches, deref_response.
+  destruct (conn_ok (rs_conn r)); cbn [andb negb].
+  - destruct (go_dump o), (go_debug o); cbn; destruct (go_answlog o) as [f|]; try reflexivity;
+      destruct (answ_applies f (rs_status r)); reflexivity.
+  - rewrite andb_false_r. reflexivity.
+Qed.
+
 Definition clean (r : response) : bool := conn_ok (rs_conn r) && rs_body_ok r.
 
 Lemma base_shoot_total : forall c r,
@@ -161,7 +170,7 @@ Proof.
   intros c r Hb Hc Hh. unfold base_shoot, clean. rewrite Hb. cbn [negb].
   assert (H2 : bc_http2 c && negb (rs_h2 r) = false).
   { destruct (bc_http2 c); [rewrite Hh by reflexivity|]; reflexivity. }
-  destruct (bc_connect c) as [[|]|]; try congruence; cbn [negb]; rewrite H2; cbn [andb];
+  destruct (bc_connect c) as [[|]|]; try congruence; cbn [negb]; rewrite H2, side_branches_no_panic; cbn [andb];
     destruct (conn_ok (rs_conn r)); cbn [negb andb];
     (eexists; split; [reflexivity|]); cbn [sm_err sm_code];
     (repeat split; intro H; try discriminate; try reflexivity;
@@ -182,6 +191,7 @@ Proof.
   intros c inv r l. unfold base_shoot. destruct (bc_bound c); [|left; reflexivity]. cbn [negb].
   destruct (bc_connect c) as [[|]|]; try discriminate;
     (destruct inv; [discriminate|]);
+    rewrite side_branches_no_panic;
     (destruct (bc_http2 c) eqn:E2; destruct (rs_h2 r) eqn:E3; destruct (conn_ok (rs_conn r)) eqn:E4; cbn [andb negb];
      try discriminate; intros _; right; repeat split; reflexivity).
 Qed.
@@ -197,7 +207,7 @@ Qed.
 
 Lemma shoot_step_safe : forall s, pps_safe s -> shoot_step s <> StepPanic.
 Proof.
-  intros s H. unfold shoot_step.
+  intros s H. unfold shoot_step. rewrite side_branches_no_panic.
   repeat match goal with |- context [if ?c then _ else _] => destruct c end; try discriminate.
   pose proof (run_pps_safe _ H) as Hr. destruct (run_pps (si_pps s)); [discriminate|discriminate|congruence].
 Qed.
@@ -215,7 +225,7 @@ Proof.
     + destruct (IH (acc ++ [sm]) Hr) as (l & H1 & H2 & H3). exists (sm :: l).
       rewrite H1, <- app_assoc. repeat split; [cbn; lia|].
       constructor; [|exact H3]. left.
-      unfold shoot_step in E.
+      unfold shoot_step in E. rewrite side_branches_no_panic in E.
       repeat match type of E with context [if ?c then _ else _] => destruct c end; try discriminate.
       destruct (run_pps (si_pps s)); try discriminate. injection E as <-. reflexivity.
     + exists [{| sm_code := 0; sm_err := true |}]. repeat split. constructor; [right; reflexivity|constructor].
@@ -226,12 +236,12 @@ Lemma scenario_shoot_total : forall steps, Forall pps_safe steps ->
 Proof. intros steps H. unfold scenario_shoot. cbn [negb]. apply (scenario_steps_total steps [] H). Qed.
 
 (* steps whose postprocessors are the modelled ones *)
-Definition mk_step (pre tmpl prep : bool) (r : response) (pps : list pp_cfg) : step_in :=
-  {| si_pre_ok := pre; si_tmpl_ok := tmpl; si_prep_ok := prep; si_resp := r; si_pps := map pp_eval pps |}.
+Definition mk_step (o : gun_opts) (pre tmpl prep : bool) (r : response) (pps : list pp_cfg) : step_in :=
+  {| si_opts := o; si_pre_ok := pre; si_tmpl_ok := tmpl; si_prep_ok := prep; si_resp := r; si_pps := map pp_eval pps |}.
 
-Lemma mk_step_safe : forall pre tmpl prep r pps, pps_safe (mk_step pre tmpl prep r pps).
+Lemma mk_step_safe : forall o pre tmpl prep r pps, pps_safe (mk_step o pre tmpl prep r pps).
 Proof.
-  intros. unfold pps_safe, mk_step. cbn [si_pps]. apply Forall_forall. intros o Hin.
+  intros. unfold pps_safe, mk_step. cbn [si_pps]. apply Forall_forall. intros out Hin.
   apply in_map_iff in Hin. destruct Hin as (p & <- & _). apply pp_eval_not_panic.
 Qed.
 
@@ -285,10 +295,10 @@ Proof.
   destruct (go_slice_piece _ _ _ _ Hg) as (pre & post & E & _). exists pre, post. split; assumption.
 Qed.
 
-Lemma scenario_total_modelled : forall (specs : list (bool * bool * bool * response * list pp_cfg)),
-  let steps := map (fun '(pre, tmpl, prep, r, pps) => mk_step pre tmpl prep r pps) specs in
+Lemma scenario_total_modelled : forall o (specs : list (bool * bool * bool * response * list pp_cfg)),
+  let steps := map (fun '(pre, tmpl, prep, r, pps) => mk_step o pre tmpl prep r pps) specs in
   exists l, scenario_shoot true steps = Returned l /\ length l = executed steps /\ Forall sample_ok_or_failure l.
 Proof.
-  intros specs steps. apply scenario_shoot_total. apply Forall_forall. intros s Hin.
+  intros o specs steps. apply scenario_shoot_total. apply Forall_forall. intros s Hin.
   apply in_map_iff in Hin. destruct Hin as ([[[[pre tmpl] prep] r] pps] & <- & _). apply mk_step_safe.
 Qed.
